@@ -1,8 +1,8 @@
 SPECIFICATION Spec
 CONSTANTS Desc = {1, 2}
-  OnCancel = "kill-child"
+  OnCancel = "kill-tree"
   ReapedGroupKill = TRUE
-  GroupWhenTranslated = TRUE
-  WaitDelay = FALSE
+  GroupWhenTranslated = FALSE
+  WaitDelay = TRUE
 INVARIANTS AfterReturnNoSurvivor
 CHECK_DEADLOCK FALSE
